@@ -128,6 +128,8 @@ func fnCoqType(k string) string {
 	switch {
 	case k == "bool", k == "errnil":
 		return "bool"
+	case k == "errv":
+		return "(option err)"
 	case k == "str":
 		return "str"
 	case k == "int":
@@ -168,7 +170,7 @@ func fnZero(k string) string {
 		return "(s\"0\")"
 	case k == "val":
 		return "VNil"
-	case k == "tok":
+	case k == "tok", k == "errv":
 		return "None"
 	}
 	return "([] : " + fnCoqType(k) + ")"
@@ -446,10 +448,13 @@ func (t *fnTr) expr(e ast.Expr) string {
 			case "err":
 				id, ok := x.X.(*ast.Ident)
 				lv := t.locals[t.p.info.Uses[id]]
-				if !ok || lv == nil || lv.kind != "errnil" || !t.p.info.Types[x.Y].IsNil() {
+				if !ok || lv == nil || (lv.kind != "errnil" && lv.kind != "errv") || !t.p.info.Types[x.Y].IsNil() {
 					t.unsupported(e, "comparison of an error value other than `err == nil` / `err != nil`")
 				}
 				r = lv.name
+				if lv.kind == "errv" {
+					r = "(match " + lv.name + " with None => true | Some _ => false end)"
+				}
 			case "bool":
 				r = "(Bool.eqb " + t.expr(x.X) + " " + t.expr(x.Y) + ")"
 			case "str":
@@ -512,6 +517,13 @@ func (t *fnTr) expr(e ast.Expr) string {
 				t.unsupported(e, "loop index applied to another slice")
 			}
 		}
+		if (k == "strs" || k == "vlist") && t.isLenMinus1(x.Index, x.X) {
+			base := t.expr(x.X)
+			t.fresh++
+			n := fmt.Sprintf("idx%d", t.fresh)
+			t.guards = append(t.guards, fmt.Sprintf("match nth_error %s (length %s - 1) with None => Crash | Some %s =>", base, base, n))
+			return n
+		}
 		i, ok := t.constInt(x.Index)
 		if !ok || (k != "bools" && k != "strs" && k != "vlist" && !strings.HasPrefix(k, "recs:")) {
 			t.unsupported(e, "index expression")
@@ -522,6 +534,19 @@ func (t *fnTr) expr(e ast.Expr) string {
 		t.guards = append(t.guards, fmt.Sprintf("match nth_error %s %d with None => Crash | Some %s =>", base, i, n))
 		return n
 	case *ast.SliceExpr:
+		// xs[:n] with a variable n, and xs[:len(xs)-1]
+		if kk := t.kindOfExpr(x.X); x.Low == nil && x.High != nil && !x.Slice3 && (kk == "vlist" || kk == "strs") {
+			if _, isConst := t.constInt(x.High); !isConst {
+				base := t.expr(x.X)
+				if t.isLenMinus1(x.High, x.X) {
+					t.guards = append(t.guards, fmt.Sprintf("if Nat.ltb (length %s) 1 then Crash else", base))
+					return "(removelast " + base + ")"
+				}
+				n := t.expr(x.High)
+				t.guards = append(t.guards, fmt.Sprintf("if (Z.ltb %s 0 || Z.ltb (Z.of_nat (length %s)) %s) then Crash else", n, base, n))
+				return "(firstn (Z.to_nat " + n + ") " + base + ")"
+			}
+		}
 		if k := t.kindOfExpr(x.X); (k != "str" && k != "strs") || x.Slice3 {
 			t.unsupported(e, "slice expression")
 		}
@@ -567,6 +592,23 @@ func (t *fnTr) expr(e ast.Expr) string {
 	}
 	t.unsupported(e, fmt.Sprintf("expression %T", e))
 	return ""
+}
+
+// isLenMinus1: is e the expression len(xs)-1 for the (syntactically same) xs?
+func (t *fnTr) isLenMinus1(e ast.Expr, xs ast.Expr) bool {
+	b, ok := e.(*ast.BinaryExpr)
+	if !ok || b.Op != token.SUB {
+		return false
+	}
+	if v, ok := t.constInt(b.Y); !ok || v != 1 {
+		return false
+	}
+	c, ok := b.X.(*ast.CallExpr)
+	if !ok || len(c.Args) != 1 {
+		return false
+	}
+	id, ok := c.Fun.(*ast.Ident)
+	return ok && id.Name == "len" && types.ExprString(unparen(c.Args[0])) == types.ExprString(unparen(xs))
 }
 
 // wrap is guarded with support for assertion guards ("ASSERT:v:pat": match v with pat => body | _ => Crash end).
@@ -672,7 +714,28 @@ func (t *fnTr) call(x *ast.CallExpr) string {
 		}
 		t.unsupported(x, "call "+full)
 	}
-	// another function / method of the package: an external call (Section variable)
+	// another function / method of the package with ONE result: an external call (Section variable)
+	if ec, ok := t.externCall(x); ok {
+		if len(ec.results) != 1 || len(ec.outArgs) != 0 {
+			t.unsupported(x, "external call with several results / out-parameters used as an expression")
+		}
+		return ec.term
+	}
+	t.unsupported(x, "call "+types.ExprString(x.Fun))
+	return ""
+}
+
+// extCall describes a call of another function / method of package mxj, which becomes a Section variable:
+//   one result            f : args -> T
+//   (T, error)            f : args -> res T
+//   no result, out-params f : args -> (the new values of the out-parameters)      (arguments &local)
+type extCall struct {
+	term    string
+	results []string // kinds of the Go results
+	outArgs []*lvar  // locals passed by address, in parameter order
+}
+
+func (t *fnTr) externCall(x *ast.CallExpr) (*extCall, bool) {
 	var callee types.Object
 	var recv ast.Expr
 	switch f := x.Fun.(type) {
@@ -683,41 +746,76 @@ func (t *fnTr) call(x *ast.CallExpr) string {
 			callee, recv = sel.Obj(), f.X
 		}
 	}
-	if fn, ok := callee.(*types.Func); ok && fn.Pkg() == t.p.pkg {
-		sig := fn.Type().(*types.Signature)
-		if sig.Results().Len() != 1 || sig.Variadic() {
-			t.unsupported(x, "external call with this signature")
+	fn, ok := callee.(*types.Func)
+	if !ok || fn.Pkg() != t.p.pkg || fn == t.self {
+		return nil, false
+	}
+	sig := fn.Type().(*types.Signature)
+	ec := &extCall{}
+	var tys, args []string
+	if recv != nil {
+		tys = append(tys, fnCoqType(t.kindOfType(sig.Recv().Type())))
+		args = append(args, t.expr(recv))
+	}
+	np := sig.Params().Len()
+	if len(x.Args) != np || (sig.Variadic() && !x.Ellipsis.IsValid()) {
+		t.unsupported(x, "external call with a different number of arguments than parameters (variadic without ...)")
+	}
+	for i, a := range x.Args {
+		k := t.kindOfType(sig.Params().At(i).Type())
+		if k == "" || k == "tok" {
+			t.unsupported(x, "external call with a parameter of this type")
 		}
-		var tys, args []string
-		if recv != nil {
-			tys = append(tys, fnCoqType(t.kindOfType(sig.Recv().Type())))
-			args = append(args, t.expr(recv))
-		}
-		for i, a := range x.Args {
-			k := t.kindOfType(sig.Params().At(i).Type())
-			if k == "" {
-				t.unsupported(x, "external call with a parameter of this type")
+		tys = append(tys, fnCoqType(k))
+		switch {
+		case strings.HasPrefix(k, "ptr:"):
+			u, ok := a.(*ast.UnaryExpr)
+			var lv *lvar
+			if ok && u.Op == token.AND {
+				if id, ok := u.X.(*ast.Ident); ok {
+					lv = t.locals[t.p.info.Uses[id]]
+				}
 			}
-			tys = append(tys, fnCoqType(k))
+			if lv == nil || lv.kind != k[4:] {
+				t.unsupported(x, "out-parameter argument other than &local")
+			}
+			ec.outArgs = append(ec.outArgs, lv)
+			args = append(args, lv.name)
+		case k == "val":
+			args = append(args, t.boxVal(a))
+		default:
 			args = append(args, t.expr(a))
 		}
-		rk := t.kindOfType(sig.Results().At(0).Type())
+	}
+	for i := 0; i < sig.Results().Len(); i++ {
+		rk := t.kindOfType(sig.Results().At(i).Type())
 		if rk == "" {
 			t.unsupported(x, "external call with this result type")
 		}
-		name := "ext_" + fn.Name()
-		typ := strings.Join(append(tys, fnCoqType(rk)), " -> ")
-		found := false
-		for _, e := range *t.externs {
-			found = found || e.name == name
-		}
-		if !found {
-			*t.externs = append(*t.externs, extern{name, typ})
-		}
-		return "(" + name + " " + strings.Join(args, " ") + ")"
+		ec.results = append(ec.results, rk)
 	}
-	t.unsupported(x, "call "+types.ExprString(x.Fun))
-	return ""
+	var rty string
+	switch {
+	case len(ec.results) == 1 && len(ec.outArgs) == 0:
+		rty = fnCoqType(ec.results[0])
+	case len(ec.results) == 2 && ec.results[1] == "err" && len(ec.outArgs) == 0:
+		rty = "(res " + fnCoqType(ec.results[0]) + ")"
+	case len(ec.results) == 0 && len(ec.outArgs) > 0:
+		rty = tupleType(ec.outArgs)
+	default:
+		t.unsupported(x, "external call with this signature")
+	}
+	name := "ext_" + fn.Name()
+	typ := strings.Join(append(tys, rty), " -> ")
+	found := false
+	for _, e := range *t.externs {
+		found = found || e.name == name
+	}
+	if !found {
+		*t.externs = append(*t.externs, extern{name, typ})
+	}
+	ec.term = "(" + name + " " + strings.Join(args, " ") + ")"
+	return ec, true
 }
 
 // condIf translates `if cond then a else b` with Go's short-circuit evaluation, so that a partial operation
@@ -859,6 +957,12 @@ func (t *fnTr) assigned(list []ast.Stmt) []*lvar {
 					for _, sv := range t.state {
 						add(sv)
 					}
+				} else if ok {
+					for _, a := range c.Args {
+						if u, ok := a.(*ast.UnaryExpr); ok && u.Op == token.AND {
+							target(u.X, false)
+						}
+					}
 				}
 			}
 			return true
@@ -971,6 +1075,21 @@ func (t *fnTr) branching(s ast.Stmt, rest []ast.Stmt, end func() string, bodies 
 }
 
 func (t *fnTr) retExpr(x *ast.ReturnStmt) string {
+	if len(t.resKind) == 2 && t.resKind[1] == "err" && len(x.Results) == 1 {
+		if c, ok := x.Results[0].(*ast.CallExpr); ok {
+			mark := len(t.guards)
+			if ec, ok := t.externCall(c); ok && len(ec.results) == 2 && ec.results[1] == "err" && ec.results[0] == t.resKind[0] {
+				return t.wrap(mark, "match "+ec.term+" with Ok v => Ret (Ok v) | Err e => Ret (Err e) | Panic => Crash end")
+			}
+		}
+	}
+	if len(t.resKind) == 2 && t.resKind[1] == "err" && len(x.Results) == 2 && t.p.info.Types[x.Results[0]].IsNil() {
+		if id, ok := x.Results[1].(*ast.Ident); ok {
+			if lv, ok := t.locals[t.p.info.Uses[id]]; ok && lv.kind == "errv" {
+				return "match " + lv.name + " with Some e => Ret (Err e) | None => Ret (Ok " + fnZero(t.resKind[0]) + ") end"
+			}
+		}
+	}
 	switch {
 	case len(t.resKind) == 0 && len(x.Results) == 0 && len(t.state) > 0:
 		return "Ret " + tupleVal(t.state)
@@ -1036,7 +1155,10 @@ func (t *fnTr) stmts(list []ast.Stmt, end func() string) string {
 			for i, id := range vs.Names {
 				obj := t.p.info.Defs[id]
 				k := t.kindOfType(obj.Type())
-				if k == "" || strings.HasPrefix(k, "rec") {
+				if k == "err" {
+					k = "errv"
+				}
+				if k == "" || strings.HasPrefix(k, "rec:") {
 					t.unsupported(s, "local variable of this type")
 				}
 				val := fnZero(k)
@@ -1045,7 +1167,7 @@ func (t *fnTr) stmts(list []ast.Stmt, end func() string) string {
 					val = t.expr(vs.Values[i])
 				}
 				lv := t.newLocal(obj, id.Name, k)
-				out += t.wrap(mark, "let "+lv.name+" := "+val+" in ")
+				out += t.wrap(mark, "let "+lv.name+" : "+fnCoqType(k)+" := "+val+" in ")
 			}
 		}
 		return out + next()
@@ -1101,6 +1223,15 @@ func (t *fnTr) stmts(list []ast.Stmt, end func() string) string {
 		return t.forStmt(x, rest, end)
 	case *ast.ExprStmt:
 		c, ok := x.X.(*ast.CallExpr)
+		if ok && !t.isSelfCall(c) {
+			mark := len(t.guards)
+			if ec, isExt := t.externCall(c); isExt {
+				if len(ec.results) != 0 || len(ec.outArgs) == 0 {
+					t.unsupported(s, "call for its effect other than a void function with out-parameters")
+				}
+				return t.wrap(mark, "let "+tuplePat(ec.outArgs)+" := "+ec.term+" in\n  "+next())
+			}
+		}
 		if !ok || !t.isSelfCall(c) {
 			t.unsupported(s, "expression statement other than a recursive call")
 		}
@@ -1172,18 +1303,42 @@ func (t *fnTr) assign(x *ast.AssignStmt, next func() string) string {
 	if len(x.Lhs) == 2 && len(x.Rhs) == 1 {
 		a, ok1 := x.Lhs[0].(*ast.Ident)
 		b, ok2 := x.Lhs[1].(*ast.Ident)
-		if !ok1 || !ok2 || !define {
+		if !ok1 || !ok2 {
 			t.unsupported(x, "two-value assignment form")
 		}
 		bind := func(id *ast.Ident, kind string) string {
 			if id.Name == "_" {
 				return "_"
 			}
+			if !define {
+				lv, ok := t.locals[t.p.info.Uses[id]]
+				if !ok || lv.kind != kind {
+					t.unsupported(x, "two-value assignment to something other than locals of the result types")
+				}
+				return lv.name
+			}
 			obj := t.p.info.Defs[id]
 			if obj == nil {
 				t.unsupported(x, "re-declaration in a two-value :=")
 			}
 			return t.newLocal(obj, id.Name, kind).name
+		}
+		// v, err := f(...) with f another function of the package returning (T, error)
+		if c, isCall := x.Rhs[0].(*ast.CallExpr); isCall {
+			mark := len(t.guards)
+			if ec, ok := t.externCall(c); ok {
+				if len(ec.results) != 2 || ec.results[1] != "err" {
+					t.unsupported(x, "two-value external call other than (T, error)")
+				}
+				t.fresh++
+				rr := fmt.Sprintf("rr%d", t.fresh)
+				t.guards = append(t.guards, "match "+ec.term+" with Panic => Crash | "+rr+" =>")
+				va, vb := bind(a, ec.results[0]), bind(b, "errv")
+				return t.wrap(mark, "let '("+va+", "+vb+") := match "+rr+" with Ok v => (v, None) | Err e => ("+fnZero(ec.results[0])+", Some e) | Panic => ("+fnZero(ec.results[0])+", None) end in\n  "+next())
+			}
+		}
+		if !define {
+			t.unsupported(x, "two-value assignment form")
 		}
 		switch r := x.Rhs[0].(type) {
 		case *ast.CallExpr: // x, err := strconv.ParseX(...)
@@ -1664,7 +1819,8 @@ func constTable(p *pkgInfo, vs *ast.ValueSpec, i int) (string, bool) {
 // ---------------------------------------------------------------- driver
 
 // the functions translated into Pure_gen.v ("Recv.Method" for methods)
-var pureFuncs = []string{"cast", "escapeChars", "parsePath", "getSubKeyMap", "hasSubKeys", "Map.PathForKeyShortest", "valuesForKeyPath", "hasKey", "hasKeyPath", "getLeafNodes"}
+var pureFuncs = []string{"cast", "escapeChars", "parsePath", "getSubKeyMap", "hasSubKeys", "Map.PathForKeyShortest", "valuesForKeyPath", "hasKey", "hasKeyPath", "getLeafNodes",
+	"Map.ValuesForKey", "Map.oldValuesForPath", "Map.ValuesForPath", "Map.LeafNodes"}
 
 func genPure(p *pkgInfo) string {
 	vars, _ := pkgVars(p)
